@@ -755,12 +755,30 @@ func TestC09(t *testing.T) {
 					out.Violate("failed transaction kept logs")
 				}
 			}
+			// success half, stated positively: a state-changing call that the EVM kept must have left its Cosmos-side effect
+			// (the reference run repeats the same code, so equality with it cannot see an effect that is never written)
+			if real.status == "ok" {
+				changed := map[string]bool{}
+				for _, c := range hx.DiffDump(before, real.dump) {
+					changed[c] = true
+				}
+				for _, id := range trc.kept {
+					if st, ok := effectStore[p.meta[id].method]; ok && !changed[st] {
+						out.Violate(fmt.Sprintf("kept precompile call left no Cosmos-side effect: %s returned normally in a frame the EVM kept, the transaction succeeded, but the %s store is unchanged", p.meta[id].variant, st))
+					}
+				}
+			}
 			if refs != "same" {
 				out.Violate(fmt.Sprintf("Cosmos state after the transaction differs from the effects of exactly the kept precompile calls (%s); status=%s kept=%v undone=%v; precompile calls that failed after paying RequiredGas: %v", refs, real.status, trc.kept, dm, failedInside(p, fn, trc.tr, e)))
 			}
 		}
 	}
 }
+
+// the module store every successful call of a state-changing method changes
+var effectStore = map[string]string{"delegateV2": "staking", "undelegateV2": "staking", "redelegateV2": "staking", "withdraw": "distribution",
+	"approveShares": "staking", "transferShares": "staking", "transferFromShares": "staking", "crossChain": "eth", "cancelSendToExternal": "eth",
+	"increaseBridgeFee": "eth", "bridgeCall": "eth", "executeClaim": "eth"}
 
 // failedInside lists the methods of precompile calls that got at least RequiredGas and still failed (the native action
 // itself failed or was cut short)
